@@ -333,6 +333,14 @@ func (c *Ctx) constructionOnly() func(fn *types.Func) bool {
 	return c.ctorOnly
 }
 
+// fnNameOf: qualified name of a declared function.
+func (c *Ctx) fnNameOf(fd *ast.FuncDecl) string {
+	if fn, ok := c.Pkg.TypesInfo.Defs[fd.Name].(*types.Func); ok {
+		return pw.FuncName(fn)
+	}
+	return fd.Name.Name
+}
+
 // declOf returns the declaration of a function of the package.
 func (c *Ctx) declOf(fn *types.Func) *ast.FuncDecl {
 	var out *ast.FuncDecl
